@@ -288,11 +288,13 @@ pub fn judge_unit(prop: &str, term: Option<&Term>, case: &Case) -> Vec<Fail> {
                 } else if let Some(t) = term {
                     if !cfg.has(BIT_CI) && is_plain(t) {
                         if let Some(spec) = spec_of(t) {
-                            match oracle::compare_full(&text, &spec) {
-                                LangCmp::Differ(w, false) => fails.push(Fail::new(Kind::Miss,
-                                    format!("the expression computed by union/concatenate prints as {:?}, which rejects {:?}; the operands denote {:?}", text, w, spec), Some(w))),
-                                LangCmp::Error(e) => fails.push(Fail::new(Kind::Oracle, e, None)),
-                                _ => {}
+                            // soundness asks for a word the operands denote and the printed text rejects — the shortest
+                            // difference of the two languages may be a word on the other side (`\u{1c89}k{2}` for `(?:Ᲊk){2}`)
+                            if let Some(w) = oracle::missing_from_first(&text, &spec) {
+                                fails.push(Fail::new(Kind::Miss,
+                                    format!("the expression computed by union/concatenate prints as {:?}, which rejects {:?}; the operands denote {:?}", text, w, spec), Some(w)));
+                            } else if let LangCmp::Error(e) = oracle::compare_full(&text, &spec) {
+                                fails.push(Fail::new(Kind::Oracle, e, None));
                             }
                         }
                     }
